@@ -641,6 +641,37 @@ def decorate_extras(tables, rng, edge_md=True):
                 ind[u] = k
             k += 1
         tables.nodes.individual = ind
+    # rows nothing refers to, a site without mutations, an edge stored as two adjacent pieces:
+    # all valid, and all of them vanish under simplify() / squash()
+    if rng.random() < 0.5:
+        if tables.populations.metadata_schema.schema is not None:
+            tables.populations.add_row(metadata={"name": "unused", "description": None})
+        else:
+            tables.populations.add_row(metadata=b"unused")
+    if rng.random() < 0.5:
+        if tables.individuals.metadata_schema.schema is None:
+            tables.individuals.add_row(flags=7, metadata=b"nobody")
+        else:
+            tables.individuals.add_row(flags=7)
+    if rng.random() < 0.5:
+        pos = set(tables.sites.position)
+        free = [x + 0.5 for x in range(int(tables.sequence_length)) if x + 0.5 not in pos]
+        if free:
+            tables.sites.add_row(position=rng.choice(free), ancestral_state="N")
+            tables.sort()
+            tables.build_index()
+            tables.compute_mutation_parents()
+    if len(tables.edges.metadata) == 0 and rng.random() < 0.4:
+        cand = [i for i in range(tables.edges.num_rows) if tables.edges.right[i] - tables.edges.left[i] >= 2]
+        if cand:
+            i = rng.choice(cand)
+            e = tables.edges[i]
+            mid = float(int((e.left + e.right) / 2))
+            tables.edges[i] = e.replace(right=mid)
+            tables.edges.add_row(left=mid, right=e.right, parent=e.parent, child=e.child)
+            tables.sort()
+            tables.build_index()
+            tables.compute_mutation_parents()
     if tables.populations.num_rows == 0 and rng.random() < 0.5:
         tables.populations.add_row(metadata=b"popA")
         tables.populations.add_row(metadata=b"popB")
